@@ -263,21 +263,19 @@ Proof.
     + right. rewrite E. apply orb_false_iff in C. destruct C as [_ C]. now apply negb_false_iff in C.
 Qed.
 
-(* with the flush flag kept across retries nothing is left *)
-Lemma process_fixed_flush_empties fuel st :
-  (length (prefix st) <= fuel)%nat ->
-  prefix (process_fixed fuel true st) = [] /\ oof (process_fixed fuel true st) = oof st.
+(* a flush pass leaves nothing (the flag is kept across retries) *)
+Lemma process_flush_empties fuel st :
+  (length (prefix st) <= fuel)%nat -> prefix (process fuel true st) = [].
 Proof.
   revert st. induction fuel as [|f IH]; intros st Hlen.
   - destruct (prefix st) eqn:E; [|cbn [length] in Hlen; lia].
-    unfold process_fixed. rewrite E. now split.
-  - cbn [process_fixed]. destruct (prefix st) as [|c tl] eqn:E; [now split|].
+    unfold process. now rewrite E.
+  - cbn [process]. destruct (prefix st) as [|c tl] eqn:E; [exact E|].
     cbn [orb]. destruct (get_match (c :: tl)) as [ks|] eqn:Hm.
-    + split; [reflexivity|]. cbn [set_prefix oof]. apply call_handler_frame.
+    + reflexivity.
     + assert (Hne : prefix st <> []) by (rewrite E; discriminate).
       destruct (no_match_step_star st Hne) as [A B].
-      destruct (IH (no_match_step st)) as [C D]; [rewrite E in B; cbn [length] in *; lia|].
-      split; [exact C|]. rewrite D. now apply star_oof.
+      apply IH. rewrite E in B. cbn [length] in *. lia.
 Qed.
 
 (* send / flush *)
@@ -305,6 +303,8 @@ Qed.
 Lemma flush_final st :
   prefix (flush st) = [] \/ is_prefix_longer (prefix (flush st)) = true.
 Proof. unfold flush. now apply process_final. Qed.
+Lemma flush_empties st : prefix (flush st) = [].
+Proof. unfold flush. now apply process_flush_empties. Qed.
 
 (* C03_longest_first: the first key press of the shift loop carries the
    longest slice of the pending string that has a match. *)
